@@ -216,6 +216,42 @@ pub proof fn lemma_dedup_dense(A: CscMatrix<F>, B: CscMatrix<F>, r: int, c: int)
     lemma_dedup_fold(rv0, nz0, hd, B.rowval@, B.nzval@, r, lo, hi, hi);
 }
 
+// a cell is stored (Some) exactly when some entry hits it: with rows_sorted (at most one hit per column and row) this turns
+// "dense(result) == tfold(triplets)" into "every (row, column) pair of the input is stored exactly once, and nothing else is"
+pub proof fn lemma_gfold_some(hit: Seq<bool>, v: Seq<F>, lo: int, hi: int)
+    ensures gfold(hit, v, lo, hi) is Some <==> exists|j: int| lo <= j < hi && #[trigger] hit[j],
+    decreases hi - lo,
+{
+    if hi > lo {
+        lemma_gfold_some(hit, v, lo, hi - 1);
+        if gfold(hit, v, lo, hi) is Some {
+            if hit[hi - 1] { } else { let j = choose|j: int| lo <= j < hi - 1 && #[trigger] hit[j]; assert(hit[j]); }
+        }
+        if exists|j: int| lo <= j < hi && #[trigger] hit[j] {
+            let j = choose|j: int| lo <= j < hi && #[trigger] hit[j];
+            if j < hi - 1 { assert(hit[j]); }
+        }
+    }
+}
+pub proof fn lemma_cell_stored(A: CscMatrix<F>, r: int, c: int)
+    requires 0 <= c < A.n, 0 <= A.colptr@[c] <= A.colptr@[c + 1] <= A.rowval@.len(),
+    ensures dense(A, r, c) is Some <==> exists|k: int| #[trigger] in_col(A, k, c) && A.rowval@[k] == r,
+{
+    let h = row_hits(A.rowval@, r); let lo = A.colptr@[c] as int; let hi = A.colptr@[c + 1] as int;
+    lemma_gfold_some(h, A.nzval@, lo, hi);
+    if dense(A, r, c) is Some { let j = choose|j: int| lo <= j < hi && #[trigger] h[j]; assert(in_col(A, j, c) && A.rowval@[j] == r); }
+    if exists|k: int| #[trigger] in_col(A, k, c) && A.rowval@[k] == r { let k = choose|k: int| #[trigger] in_col(A, k, c) && A.rowval@[k] == r; assert(h[k]); }
+}
+pub proof fn lemma_triplet_present(I: Seq<usize>, J: Seq<usize>, V: Seq<F>, r: int, c: int)
+    requires J.len() == I.len(),
+    ensures tfold(I, J, V, r, c) is Some <==> exists|k: int| 0 <= k < I.len() && #[trigger] I[k] == r && J[k] == c,
+{
+    let h = cell_hits(I, J, r, c); let nn = I.len() as int;
+    lemma_gfold_some(h, V, 0, nn);
+    if tfold(I, J, V, r, c) is Some { let j = choose|j: int| 0 <= j < nn && #[trigger] h[j]; assert(I[j] == r && J[j] == c); }
+    if exists|k: int| 0 <= k < I.len() && #[trigger] I[k] == r && J[k] == c { let k = choose|k: int| 0 <= k < I.len() && #[trigger] I[k] == r && J[k] == c; assert(h[k]); }
+}
+
 // ---- two lists whose hits correspond one to one, in the same order, with the same values, have the same fold ----
 // (p maps the hits of list 1 to the hits of list 0, q back; used for: stable sorting, and a column block inside the whole list)
 pub open spec fn fold_match(h1: Seq<bool>, v1: Seq<F>, lo1: int, hi1: int, h0: Seq<bool>, v0: Seq<F>, lo0: int, hi0: int, p: Seq<int>, q: Seq<int>) -> bool {
@@ -271,6 +307,113 @@ pub open spec fn cols_sorted_by(A: CscMatrix<F>, B: CscMatrix<F>, p: Seq<int>, q
     &&& forall|k: int| 0 <= k < nn ==> #[trigger] B.nzval@[k] == A.nzval@[p[k]]
     &&& rows_nondecr(B) && col_stable(A, B.rowval@, p, A.n as int)
 }
+// state of sort_indices after the first ncol columns: (rv, nz) = the input arrays rearranged by gp (gq = inverse), which is the
+// identity from column ncol on, stays inside the columns, and sorts the first ncol columns stably (opaque for the exec body)
+#[verifier::opaque]
+pub open spec fn sort_inv(A0: CscMatrix<F>, rv: Seq<usize>, nz: Seq<F>, gp: Seq<int>, gq: Seq<int>, ncol: int) -> bool {
+    let cp0 = A0.colptr@;
+    let nn = A0.rowval@.len() as int;
+    &&& rv.len() == nn && nz.len() == nn && perm_pair(gp, gq, nn) && gp.len() == nn && gq.len() == nn
+    &&& forall|k: int| cp0[ncol] <= k < nn ==> #[trigger] gp[k] == k && gq[k] == k
+    &&& forall|c: int, k: int| #[trigger] in_col(A0, k, c) && c < ncol ==> in_seg(A0, gp[k], c) && in_seg(A0, gq[k], c)
+    &&& forall|k: int| 0 <= k < nn ==> #[trigger] rv[k] == A0.rowval@[gp[k]]
+    &&& forall|k: int| 0 <= k < nn ==> #[trigger] nz[k] == A0.nzval@[gp[k]]
+    &&& forall|c: int, k: int| #[trigger] in_col(A0, k, c) && c < ncol && k + 1 < cp0[c + 1] ==> rv[k] <= rv[k + 1]
+    &&& col_stable(A0, rv, gp, ncol)
+}
+pub open spec fn splice(g: Seq<int>, lo: int, hi: int, l: Seq<int>) -> Seq<int> { Seq::new(g.len(), |k: int| if lo <= k < hi { lo + l[k - lo] } else { g[k] }) }
+pub proof fn lemma_sort_init(A0: CscMatrix<F>)
+    requires dims_ok(A0), A0.colptr@[0] == 0,
+    ensures sort_inv(A0, A0.rowval@, A0.nzval@, Seq::new(A0.rowval@.len(), |k: int| k), Seq::new(A0.rowval@.len(), |k: int| k), 0),
+{
+    let id = Seq::new(A0.rowval@.len(), |k: int| k);
+    reveal(sort_inv);
+    lemma_perm_intro(id, id, A0.rowval@.len() as int);
+    assert(col_stable(A0, A0.rowval@, id, 0)) by { reveal(col_stable); }
+}
+// one column sorted: the local permutation lp (of 0..hi-lo, inverse lq) is spliced into the global one
+pub proof fn lemma_sort_step(A0: CscMatrix<F>, gc: int, rvS: Seq<usize>, nzS: Seq<F>, rvN: Seq<usize>, nzN: Seq<F>, gp1: Seq<int>, gq1: Seq<int>, td1: Seq<(usize, F)>, lp: Seq<int>, lq: Seq<int>)
+    requires
+        dims_ok(A0), mono2(A0.colptr@), A0.colptr@[0] == 0, 0 <= gc < A0.n,
+        sort_inv(A0, rvS, nzS, gp1, gq1, gc),
+        perm_pair(lp, lq, A0.colptr@[gc + 1] - A0.colptr@[gc]), keys_stable(td1, lp), td1.len() == A0.colptr@[gc + 1] - A0.colptr@[gc],
+        rvN.len() == rvS.len(), nzN.len() == nzS.len(),
+        forall|t: int| 0 <= t < td1.len() ==> #[trigger] td1[t] == (rvS[A0.colptr@[gc] + lp[t]], nzS[A0.colptr@[gc] + lp[t]]),
+        forall|k: int| A0.colptr@[gc] <= k < A0.colptr@[gc + 1] ==> #[trigger] rvN[k] == td1[k - A0.colptr@[gc]].0,
+        forall|k: int| A0.colptr@[gc] <= k < A0.colptr@[gc + 1] ==> #[trigger] nzN[k] == td1[k - A0.colptr@[gc]].1,
+        forall|k: int| 0 <= k < rvS.len() && !(A0.colptr@[gc] <= k < A0.colptr@[gc + 1]) ==> #[trigger] rvN[k] == rvS[k],
+        forall|k: int| 0 <= k < nzS.len() && !(A0.colptr@[gc] <= k < A0.colptr@[gc + 1]) ==> #[trigger] nzN[k] == nzS[k],
+    ensures
+        sort_inv(A0, rvN, nzN, splice(gp1, A0.colptr@[gc] as int, A0.colptr@[gc + 1] as int, lp), splice(gq1, A0.colptr@[gc] as int, A0.colptr@[gc + 1] as int, lq), gc + 1),
+{
+    reveal(sort_inv);
+    let cp0 = A0.colptr@; let rv0 = A0.rowval@; let nz0 = A0.nzval@; let nn = rv0.len() as int;
+    let lo = cp0[gc] as int; let hi = cp0[gc + 1] as int;
+    lemma_mono2(cp0, gc, gc + 1); lemma_mono2(cp0, gc + 1, A0.n as int);
+    let gp = splice(gp1, lo, hi, lp); let gq = splice(gq1, lo, hi, lq);
+    lemma_perm_len(lp, lq, hi - lo);
+    // slots outside the column are not mapped into it
+    assert forall|k: int| 0 <= k < nn && !(lo <= k < hi) implies !(lo <= #[trigger] gp1[k] < hi) && !(lo <= gq1[k] < hi) by {
+        if k < lo {
+            lemma_in_some_col(A0, k, gc);
+            let x = choose|x: int| 0 <= x < gc && #[trigger] in_col(A0, k, x);
+            lemma_mono2(cp0, x + 1, gc);
+            assert(in_seg(A0, gp1[k], x) && in_seg(A0, gq1[k], x));
+        } else { assert(gp1[k] == k && gq1[k] == k); }
+    }
+    assert(perm_pair(gp, gq, nn)) by {
+        assert forall|k: int| 0 <= k < nn implies 0 <= #[trigger] gp[k] < nn && gq[gp[k]] == k by {
+            if lo <= k < hi { lemma_perm(lp, lq, hi - lo, k - lo); } else { lemma_perm(gp1, gq1, nn, k); }
+        }
+        assert forall|j: int| 0 <= j < nn implies 0 <= #[trigger] gq[j] < nn && gp[gq[j]] == j by {
+            if lo <= j < hi { lemma_perm(lp, lq, hi - lo, j - lo); } else { lemma_perm(gp1, gq1, nn, j); }
+        }
+        lemma_perm_intro(gp, gq, nn);
+    }
+    assert forall|k: int| hi <= k < nn implies #[trigger] gp[k] == k && gq[k] == k by { assert(gp1[k] == k && gq1[k] == k); }
+    assert forall|k: int| 0 <= k < nn implies #[trigger] rvN[k] == rv0[gp[k]] by {
+        if lo <= k < hi {
+            let t = k - lo;
+            lemma_perm(lp, lq, hi - lo, t);
+            assert(rvN[k] == td1[t].0);
+            assert(td1[t] == (rvS[lo + lp[t]], nzS[lo + lp[t]]));
+            assert(gp1[lo + lp[t]] == lo + lp[t]);
+            assert(rvS[lo + lp[t]] == rv0[gp1[lo + lp[t]]]);
+        } else { assert(rvN[k] == rvS[k]); assert(rvS[k] == rv0[gp1[k]]); }
+    }
+    assert forall|k: int| 0 <= k < nn implies #[trigger] nzN[k] == nz0[gp[k]] by {
+        if lo <= k < hi {
+            let t = k - lo;
+            lemma_perm(lp, lq, hi - lo, t);
+            assert(nzN[k] == td1[t].1);
+            assert(td1[t] == (rvS[lo + lp[t]], nzS[lo + lp[t]]));
+            assert(gp1[lo + lp[t]] == lo + lp[t]);
+            assert(nzS[lo + lp[t]] == nz0[gp1[lo + lp[t]]]);
+        } else { assert(nzN[k] == nzS[k]); assert(nzS[k] == nz0[gp1[k]]); }
+    }
+    assert forall|c: int, k: int| #[trigger] in_col(A0, k, c) && c < gc + 1 implies in_seg(A0, gp[k], c) && in_seg(A0, gq[k], c) by {
+        if c < gc { lemma_mono2(cp0, c + 1, gc); assert(in_seg(A0, gp1[k], c) && in_seg(A0, gq1[k], c)); } else { lemma_perm(lp, lq, hi - lo, k - lo); }
+    }
+    assert forall|c: int, k: int| #[trigger] in_col(A0, k, c) && c < gc + 1 && k + 1 < cp0[c + 1] implies rvN[k] <= rvN[k + 1] by {
+        if c < gc { lemma_mono2(cp0, c + 1, gc); assert(rvS[k] <= rvS[k + 1]); assert(rvN[k] == rvS[k]); assert(rvN[k + 1] == rvS[k + 1]); }
+        else { lemma_keys_stable(td1, lp, k - lo, k + 1 - lo); assert(rvN[k] == td1[k - lo].0); assert(rvN[k + 1] == td1[k + 1 - lo].0); }
+    }
+    assert(col_stable(A0, rvN, gp, gc + 1)) by {
+        reveal(col_stable);
+        assert forall|c: int, k1: int, k2: int| c < gc + 1 && #[trigger] in_col(A0, k1, c) && #[trigger] in_col(A0, k2, c) && k1 < k2 && rvN[k1] == rvN[k2] implies gp[k1] < gp[k2] by {
+            if c < gc { lemma_mono2(cp0, c + 1, gc); assert(rvN[k1] == rvS[k1]); assert(rvN[k2] == rvS[k2]); }
+            else { lemma_keys_stable(td1, lp, k1 - lo, k2 - lo); assert(rvN[k1] == td1[k1 - lo].0); assert(rvN[k2] == td1[k2 - lo].0); }
+        }
+    }
+}
+pub proof fn lemma_sort_final(A0: CscMatrix<F>, B: CscMatrix<F>, gp: Seq<int>, gq: Seq<int>)
+    requires dims_ok(A0), sort_inv(A0, B.rowval@, B.nzval@, gp, gq, A0.n as int), B.m == A0.m, B.n == A0.n, B.colptr@ == A0.colptr@,
+    ensures cols_sorted_by(A0, B, gp, gq),
+{
+    reveal(sort_inv);
+    assert forall|c: int, k: int| #[trigger] in_col(B, k, c) && k + 1 < B.colptr@[c + 1] implies B.rowval@[k] <= B.rowval@[k + 1] by { assert(in_col(A0, k, c)); }
+}
+
 // C16 (sort_indices / dense meaning): a stable sort inside the columns does not change any cell
 pub proof fn lemma_sort_dense(A: CscMatrix<F>, B: CscMatrix<F>, p: Seq<int>, q: Seq<int>, r: int, c: int)
     requires dims_ok(A), colptr_mono(A), cols_sorted_by(A, B, p, q), 0 <= c < A.n,
@@ -699,27 +842,19 @@ it0
         proof { assert(self.rowval@.len() == self.rowval.len()); assert(self.colptr@.len() == self.colptr.len()); lemma_mono_all(self.colptr@); }
         let ghost A0 = *self;
         let ghost cp0 = self.colptr@;
-        let ghost rv0 = self.rowval@;
-        let ghost nz0 = self.nzval@;
         let ghost nn = self.rowval@.len() as int;
         let ghost mut gp: Seq<int> = Seq::new(nn as nat, |k: int| k);
         let ghost mut gq: Seq<int> = Seq::new(nn as nat, |k: int| k);
-        proof { assert(col_stable(A0, self.rowval@, gp, 0)) by { reveal(col_stable); } lemma_perm_intro(gp, gq, nn); }
+        proof { lemma_sort_init(A0); }
 //@iter 1
 it0
 //@loop 1
         invariant
             it0.seq().len() == self.n, range_from(it0.seq(), 0), self.n == A0.n, self.m == A0.m,
-            A0 == *old(self), cp0 == A0.colptr@, rv0 == A0.rowval@, nz0 == A0.nzval@, nn == rv0.len(), nn <= usize::MAX,
+            A0 == *old(self), cp0 == A0.colptr@, nn == A0.rowval@.len(), nn <= usize::MAX,
             dims_ok(A0), mono2(cp0), cp0[0] == 0,
             self.colptr@ == cp0, self.rowval@.len() == nn, self.nzval@.len() == nn,
-            perm_pair(gp, gq, nn),
-            forall|k: int| cp0[it0.index@ as int] <= k < nn ==> #[trigger] gp[k] == k && gq[k] == k,
-            forall|c: int, k: int| #[trigger] in_col(A0, k, c) && c < it0.index@ ==> in_seg(A0, gp[k], c) && in_seg(A0, gq[k], c),
-            forall|k: int| 0 <= k < nn ==> #[trigger] self.rowval@[k] == rv0[gp[k]],
-            forall|k: int| 0 <= k < nn ==> #[trigger] self.nzval@[k] == nz0[gp[k]],
-            forall|c: int, k: int| #[trigger] in_col(A0, k, c) && c < it0.index@ && k + 1 < cp0[c + 1] ==> self.rowval@[k] <= self.rowval@[k + 1],
-            col_stable(A0, self.rowval@, gp, it0.index@ as int),
+            sort_inv(A0, self.rowval@, self.nzval@, gp, gq, it0.index@ as int),
 //@body_start 1
             let ghost gc = col as int;
             let ghost rvS = self.rowval@;
@@ -745,7 +880,14 @@ it0
             let ghost lpq = choose|p: Seq<int>, q: Seq<int>| pairs_stably_sorted(td0, td1, p, q);
             let ghost lp = lpq.0;
             let ghost lq = lpq.1;
-            proof { assert(pairs_stably_sorted(td0, td1, lp, lq)); }
+            proof {
+                assert(pairs_stably_sorted(td0, td1, lp, lq));
+                assert forall|t: int| 0 <= t < td1.len() implies #[trigger] td1[t] == (rvS[lo + lp[t]], nzS[lo + lp[t]]) by {
+                    lemma_perm(lp, lq, hi - lo, t);
+                    assert(td1[t] == td0[lp[t]]);
+                    assert(td0[lp[t]] == (rsl[lp[t]], nsl[lp[t]]));
+                }
+            }
 //@iter 3
 it3
 //@loop 3
@@ -756,69 +898,50 @@ it3
                     forall|t: int| 0 <= t < i_ctr ==> #[trigger] nzval@[t] == td1[t].1,
 //@body_end 1
             proof {
-                // the global permutation: the local one, shifted, on this column; unchanged elsewhere
-                gp = Seq::new(nn as nat, |k: int| if lo <= k < hi { lo + lp[k - lo] } else { gp1[k] });
-                gq = Seq::new(nn as nat, |k: int| if lo <= k < hi { lo + lq[k - lo] } else { gq1[k] });
-                lemma_perm_len(lp, lq, hi - lo); lemma_perm_len(gp1, gq1, nn);
-                assert forall|k: int| 0 <= k < nn && !(lo <= k < hi) implies !(lo <= #[trigger] gp1[k] < hi) && !(lo <= gq1[k] < hi) by {
-                    if k < lo {
-                        lemma_in_some_col(A0, k, gc);
-                        let x = choose|x: int| 0 <= x < gc && #[trigger] in_col(A0, k, x);
-                        lemma_mono2(cp0, x + 1, gc);
-                    }
-                }
-                assert forall|k: int| 0 <= k < nn implies 0 <= #[trigger] gp[k] < nn && gq[gp[k]] == k by {
-                    if lo <= k < hi { lemma_perm(lp, lq, hi - lo, k - lo); } else { lemma_perm(gp1, gq1, nn, k); }
-                }
-                assert forall|j: int| 0 <= j < nn implies 0 <= #[trigger] gq[j] < nn && gp[gq[j]] == j by {
-                    if lo <= j < hi { lemma_perm(lp, lq, hi - lo, j - lo); } else { lemma_perm(gp1, gq1, nn, j); }
-                }
-                lemma_perm_intro(gp, gq, nn);
-                assert forall|k: int| 0 <= k < nn implies #[trigger] self.rowval@[k] == rv0[gp[k]] by {
-                    if lo <= k < hi {
-                        let t = k - lo;
-                        lemma_perm(lp, lq, hi - lo, t);
-                        assert(td1[t] == td0[lp[t]]);
-                        assert(0 <= lp[t] < hi - lo);
-                        assert(td0[lp[t]] == (rsl[lp[t]], nsl[lp[t]]));
-                        assert(rvS[lo + lp[t]] == rv0[gp1[lo + lp[t]]]);
-                        assert(nzS[lo + lp[t]] == nz0[gp1[lo + lp[t]]]);
-                    } else { assert(rvS[k] == rv0[gp1[k]]); assert(nzS[k] == nz0[gp1[k]]); }
-                }
-                assert forall|k: int| 0 <= k < nn implies #[trigger] self.nzval@[k] == nz0[gp[k]] by {
-                    if lo <= k < hi {
-                        let t = k - lo;
-                        lemma_perm(lp, lq, hi - lo, t);
-                        assert(td1[t] == td0[lp[t]]);
-                        assert(0 <= lp[t] < hi - lo);
-                        assert(td0[lp[t]] == (rsl[lp[t]], nsl[lp[t]]));
-                        assert(rvS[lo + lp[t]] == rv0[gp1[lo + lp[t]]]);
-                        assert(nzS[lo + lp[t]] == nz0[gp1[lo + lp[t]]]);
-                    } else { assert(rvS[k] == rv0[gp1[k]]); assert(nzS[k] == nz0[gp1[k]]); }
-                }
-                assert forall|c: int, k: int| #[trigger] in_col(A0, k, c) && c < gc + 1 implies in_seg(A0, gp[k], c) && in_seg(A0, gq[k], c) by {
-                    if c < gc { lemma_mono2(cp0, c + 1, gc); } else { lemma_perm(lp, lq, hi - lo, k - lo); }
-                }
-                assert forall|c: int, k: int| #[trigger] in_col(A0, k, c) && c < gc + 1 && k + 1 < cp0[c + 1] implies self.rowval@[k] <= self.rowval@[k + 1] by {
-                    if c < gc { lemma_mono2(cp0, c + 1, gc); assert(rvS[k] <= rvS[k + 1]); }
-                    else { lemma_keys_stable(td1, lp, k - lo, k + 1 - lo); }
-                }
-                assert(col_stable(A0, self.rowval@, gp, gc + 1)) by {
-                    reveal(col_stable);
-                    assert forall|c: int, k1: int, k2: int| c < gc + 1 && #[trigger] in_col(A0, k1, c) && #[trigger] in_col(A0, k2, c) && k1 < k2 && self.rowval@[k1] == self.rowval@[k2] implies gp[k1] < gp[k2] by {
-                        if c < gc { lemma_mono2(cp0, c + 1, gc); assert(rvS[k1] == rvS[k2]); }
-                        else { lemma_keys_stable(td1, lp, k1 - lo, k2 - lo); }
-                    }
-                }
+                assert forall|k: int| lo <= k < hi implies #[trigger] self.rowval@[k] == td1[k - lo].0 by { }
+                assert forall|k: int| lo <= k < hi implies #[trigger] self.nzval@[k] == td1[k - lo].1 by { }
+                lemma_sort_step(A0, gc, rvS, nzS, self.rowval@, self.nzval@, gp1, gq1, td1, lp, lq);
+                gp = splice(gp1, lo, hi, lp);
+                gq = splice(gq1, lo, hi, lq);
             }
 //@before "Ok(())"
         proof {
-            assert forall|c: int, k: int| #[trigger] in_col(*self, k, c) && k + 1 < self.colptr@[c + 1] implies self.rowval@[k] <= self.rowval@[k + 1] by { assert(in_col(A0, k, c)); }
-            assert(cols_sorted_by(A0, *self, gp, gq));
+            lemma_sort_final(A0, *self, gp, gq);
             assert forall|i: int, c: int| 0 <= c < A0.n implies #[trigger] dense(*self, i, c) == dense(A0, i, c) by { lemma_sort_dense(A0, *self, gp, gq, i, c); }
-            if rows_in_range(A0) { assert forall|k: int| 0 <= k < nn implies #[trigger] self.rowval@[k] < self.m by { lemma_perm(gp, gq, nn, k); assert(rv0[gp[k]] < A0.m); } }
-            if rows_in_range(*self) { assert forall|k: int| 0 <= k < nn implies #[trigger] A0.rowval@[k] < A0.m by { lemma_perm(gp, gq, nn, k); assert(self.rowval@[gq[k]] == rv0[gp[gq[k]]]); } }
+            if rows_in_range(A0) { assert forall|k: int| 0 <= k < nn implies #[trigger] self.rowval@[k] < self.m by { lemma_perm(gp, gq, nn, k); assert(A0.rowval@[gp[k]] < A0.m); } }
+            if rows_in_range(*self) { assert forall|k: int| 0 <= k < nn implies #[trigger] A0.rowval@[k] < A0.m by { lemma_perm(gp, gq, nn, k); assert(self.rowval@[gq[k]] == A0.rowval@[gp[gq[k]]]); } }
         }
+//@end
+
+//@fn file=src/algebra/csc/core.rs in="impl<T> CscMatrix<T>" name=check_dimensions rules=R1,R21 ret=r
+//@contract
+    ensures
+        r is Ok <==> dims_ok(*self) && colptr_mono(*self),
+        r matches Err(e) ==> (e == SparseFormatError::IncompatibleDimension <==> !dims_ok(*self)) && (e == SparseFormatError::BadColptr <==> dims_ok(*self)),
+//@pre
+        proof { reveal(adj_mono); assert(self.rowval@.len() == self.rowval.len()); assert(self.colptr@.len() == self.colptr.len()); }
+//@iter 1
+it1
+//@loop 1
+            invariant
+                r21_s1@ == self.colptr@, it1.seq().len() == r21_s1@.len() - 1, range_from(it1.seq(), 1), r21_s1@.len() >= 1,
+                !r21_k1 ==> forall|i: int| 0 <= i < it1.index@ ==> #[trigger] self.colptr@[i] <= self.colptr@[i + 1],
+                r21_k1 ==> exists|i: int| 0 <= i < self.colptr@.len() - 1 && #[trigger] self.colptr@[i] > self.colptr@[i + 1],
+//@end
+
+//@fn file=src/algebra/csc/core.rs in="impl<T> CscMatrix<T>" name=canonicalize rules=R1 ret=r
+//@contract
+    ensures
+        // rejected exactly when the dimensions are inconsistent or the column pointers are not monotone from 0; nothing is touched then
+        r is Ok <==> dims_ok(*old(self)) && colptr_mono(*old(self)),
+        r is Err ==> *final(self) == *old(self),
+        // C16 (canonicalisation): on Ok the columns are strictly sorted (no duplicates) and no cell of the dense meaning has
+        // changed (duplicates of a cell are added from left to right in storage order; structural zeros stay).
+        // The row range is NOT checked: the result passes check_format iff all stored rows of the input were < m.
+        r is Ok ==> final(self).m == old(self).m && final(self).n == old(self).n
+            && dims_ok(*final(self)) && colptr_mono(*final(self)) && rows_sorted(*final(self))
+            && (canonical(*final(self)) <==> rows_in_range(*old(self)))
+            && forall|i: int, c: int| 0 <= c < old(self).n ==> #[trigger] dense(*final(self), i, c) == dense(*old(self), i, c),
 //@end
 
 //@include units/inc/csc_alloc.rs
@@ -1132,6 +1255,42 @@ it0
 }
 // names the pair (column, slot) — a trigger for clauses whose index terms contain arithmetic
 pub open spec fn cd(c: int, d: int) -> bool { true }
+// ---- src/algebra/utils.rs ----
+#[verifier::opaque]
+pub open spec fn injective(p: Seq<usize>) -> bool { forall|i: int, j: int| 0 <= i < j < p.len() ==> #[trigger] p[i] != #[trigger] p[j] }
+pub proof fn lemma_injective(p: Seq<usize>, i: int, j: int)
+    requires injective(p), 0 <= i < p.len(), 0 <= j < p.len(), i != j,
+    ensures p[i] != p[j],
+{ reveal(injective); }
+//@fn file=src/algebra/utils.rs name=invperm rules=R3 ret=r
+//@contract
+    requires forall|i: int| 0 <= i < p@.len() ==> #[trigger] p@[i] < p@.len(), injective(p@),
+    ensures
+        // for a permutation p (entries in range, no repeats) neither assert fires and the result is its inverse
+        r@.len() == p@.len(), forall|i: int| 0 <= i < p@.len() ==> #[trigger] r@[p@[i] as int] == i,
+//@iter 1
+it
+//@loop 1
+        invariant
+            i_ctr == it.index@, it.seq().len() == p@.len(), (forall|k: int| 0 <= k < it.seq().len() ==> *(#[trigger] it.seq()[k]) == p@[k]),
+            b@.len() == p@.len(), p@.len() == p.len(), forall|k: int| 0 <= k < p@.len() ==> #[trigger] p@[k] < p@.len(), injective(p@),
+            forall|k: int| 0 <= k < i_ctr ==> #[trigger] b@[p@[k] as int] == k,
+            forall|v: int| 0 <= v < b@.len() && #[trigger] b@[v] != 0 ==> b@[v] < i_ctr && p@[b@[v] as int] == v,
+//@body_start 1
+            let ghost gi = it.index@ as int;
+            let ghost b1 = b@;
+            proof {
+                assert(*j == p@[gi]);
+                if b1[*j as int] != 0 { lemma_injective(p@, b1[*j as int] as int, gi); }
+            }
+//@body_end 1
+            proof {
+                assert forall|k: int| 0 <= k < gi + 1 implies #[trigger] b@[p@[k] as int] == k by {
+                    if k < gi { lemma_injective(p@, k, gi); assert(b1[p@[k] as int] == k); }
+                }
+            }
+//@end
+
 pub open spec fn range_from(sq: Seq<usize>, lo: int) -> bool { forall|k: int| 0 <= k < sq.len() ==> #[trigger] sq[k] == lo + k }
 } // verus!
 fn main() {}
